@@ -4,7 +4,7 @@ From Coq Require Import List NArith ZArith.
 From GoMC Require Import Base.Bytes Base.Dec Gen.Consts Model.C01 Model.C02 Proofs.C01 Proofs.C01_dec Proofs.C01_more
   Proofs.C02_dec Proofs.C02 Proofs.C02_struct Proofs.C02_all Proofs.C02_emb.
 From GoMC Require Import Base.GoInt Model.C02_syntax Gen.C02gen Proofs.C02_expected Proofs.C02_tie Proofs.C02_tie2
-  Proofs.C02_tie3 Proofs.C02_tie4 Proofs.C02_tie5 Proofs.C02_emb2.
+  Proofs.C02_tie3 Proofs.C02_tie4 Proofs.C02_tie5 Proofs.C02_emb2 Proofs.C02_tie6 Proofs.C02_tie7.
 From GoMC Require Model.C03_syntax Gen.C03gen.
 Import ListNotations.
 Open Scope N_scope.
@@ -239,12 +239,13 @@ Theorem C02_writeTag_ok : forall t name,
 Proof. exact writeTag_ok. Qed.
 (* the struct field loop of writeValue: one step of the model's fields_enc IS the interpretation of the
    translated statement list (omitempty, TagEnd refused, list option with its three array tags, writeTag,
-   marshal - in that order) on what the step observes *)
-Theorem C02_field_loop_ok : forall encf encl f fr x vr acc, f_skip (fst f) = false ->
+   marshal - in that order) on what the step observes; the emptiness test is the one of the FIELD value (ea, the
+   emptiness of what getTagType returns after following pointers and interfaces, is never looked at) *)
+Theorem C02_field_loop_ok : forall encf encl f fr x vr acc ea, f_skip (fst f) = false ->
   fields_enc encf encl (f :: fr) (x :: vr) acc =
   match run_field c02_field_loop
-          (FObs false (f_omit (fst f)) (is_empty (snd f) x) (Z.of_N (get_tag (snd f) x)) (f_list (fst f))
-                (name_too_long (f_name (fst f)))) 0%Z false with
+          (FObs false (f_omit (fst f)) (is_empty (snd f) x) ea (Z.of_N (get_tag (snd f) x)) (f_list (fst f))
+                (name_too_long (f_name (fst f)))) 0%Z false false with
   | FSkip => fields_enc encf encl fr vr acc
   | FErr => TErr
   | FWrite typ ov =>
@@ -427,3 +428,54 @@ Proof.
 Qed.
 Print Assumptions C02_embedded_roundtrip.
 Print Assumptions C02_rtf_documented.
+
+(* ------------------------------------------------------------------------------------------------------------ *)
+(* PHASE 6: the breadth-first collection of typeFields, the elements of the typed arrays, the order of the omitempty test *)
+
+(* typeFields' collection, interpreted: the index sequence of a field is a FRESH COPY of its parent's plus the field
+   number (the statements make / copy / index[len] = i), so the collection is the pure level-by-level traversal ... *)
+Theorem C02_collect_steps_ok : forall ds, run_collect c02_collect_steps ds = collect_pure ds.
+Proof. exact collect_steps_ok. Qed.
+(* ... which holds exactly the candidates of the model's depth-first collection (any embedding depth) ... *)
+Theorem C02_collect_perm : forall ds, Permutation.Permutation (collect_pure ds) (cands_l [] O ds).
+Proof. exact collect_perm. Qed.
+(* ... so the FINAL LIST typeFields returns - the dominant fields of the breadth-first collection (C02_dominant_ok), put in
+   the order of the translated byIndex.Less by sort.Sort - is the model's table, whatever the traversal order *)
+Theorem C02_collect_final : forall ds l,
+  Permutation.Permutation l (filter (dominates (run_collect c02_collect_steps ds)) (run_collect c02_collect_steps ds)) ->
+  Sorted.StronglySorted (fun a b => run_index_less c02_index_less (tf_path a) (tf_path b) = true) l ->
+  l = type_fields ds.
+Proof. exact collect_final. Qed.
+(* with `index := append(f.index, i)` instead (Go slices modelled with an explicit heap of backing arrays) the two fields
+   of a struct embedded three levels deep get ONE index sequence: the obligation C02_collect_steps_ok is then false *)
+Example C02_ex_alias_sensitive :
+  map tf_path (run_collect c02_collect_steps alias_ex) = [[0;0;0;0]; [0;0;0;1]]%nat /\
+  map tf_path (run_collect [CIndex IdxAppendParent] alias_ex) = [[0;0;0;1]; [0;0;0;1]]%nat.
+Proof. exact alias_sensitive. Qed.
+
+(* the elements of a TagByteArray: a typed slice by its element kind, everything else through the []any branch by the
+   dynamic kind after unwrapping interfaces (other kinds: error) - the model's byte_elem *)
+Theorem C02_byte_elem_ok : forall e x, has_type e x = true -> (forall sg w, e = YInt sg w -> w = 8) ->
+  option_map Z.of_N (byte_elem e x) = run_byte_elem e x.
+Proof. exact byte_elem_ok. Qed.
+(* the element loop of TagIntArray / TagLongArray (unwrap, the tag of the element's type must be the wanted one, the
+   value by kind with int64(uint), int32(v) or v written) - the model's wide_elem *)
+Theorem C02_wide_elem_ok : forall want e x, has_type e x = true ->
+  (want = idInt \/ want = idLong) -> (e = YIface \/ exists sg w, e = YInt sg w /\ (w = 32 \/ w = 64)) ->
+  wide_elem want e x = run_wide_elem (Z.of_N (arr_of want)) e x.
+Proof. exact wide_elem_ok. Qed.
+
+(* omitempty is tested on the FIELD value, before getTagType follows pointers and interfaces: with the two statements
+   swapped the interpretation differs from the model as soon as the two emptiness tests differ (a non-nil pointer to 0) *)
+Example C02_ex_omit_order_sensitive :
+  let o := FObs false true false true 3 false false in
+  run_field c02_field_loop o 0 false false = FWrite 3 false /\
+  run_field [FWalkIndex; FGetTag; FOmitEmpty; FEndErr nbt_TagEnd;
+             FListOption [nbt_TagByteArray; nbt_TagIntArray; nbt_TagLongArray] nbt_TagList; FWriteTag; FMarshal] o 0 false false = FSkip.
+Proof. split; reflexivity. Qed.
+
+Print Assumptions C02_collect_steps_ok.
+Print Assumptions C02_collect_perm.
+Print Assumptions C02_collect_final.
+Print Assumptions C02_byte_elem_ok.
+Print Assumptions C02_wide_elem_ok.
